@@ -2,11 +2,18 @@ package ast
 
 import (
 	"strconv"
+	"sync"
 )
 
 var capture_group_number int = 0
 
+// capture_group_number is package-level state shared by every parse: concurrent
+// Compile calls are serialised while they parse
+var parse_lock sync.Mutex
+
 func parse(tokens []*Token) ([]AstCommand, error) {
+	parse_lock.Lock()
+	defer parse_lock.Unlock()
 	commands := []AstCommand{}
 	capture_group_number = 0
 	token_index := 0
